@@ -7,7 +7,7 @@
    byte; END_STREAM; header block with its field list; PUSH_PROMISE; PRIORITY;
    RST_STREAM), so framing (fragmentation, padding, splitting) is factored out. *)
 From Coq Require Import List NArith ZArith Bool Ascii.
-From Martian.H2 Require Import Model Spec Proofs_flow Proofs_oracle Proofs_c08 Proofs_misc Proofs_final.
+From Martian.H2 Require Import Model Spec Proofs_flow Proofs_oracle Proofs_c08 Proofs_misc Proofs_final Proofs_prio.
 Import ListNotations.
 
 (* per stream, in order: delivered ++ still held by the receiver's windows = sent *)
@@ -68,6 +68,12 @@ Proof. exact preface_single_read_refuted. Qed.
 Theorem C08_headers_priority_flag_refuted :
   exists ls, rfc_valid ls = true /\ c08_prio_ok ls (obs_of ls) = false.
 Proof. exists w_k1. exact k1_refuted. Qed.
+
+(* ... guarded form: without such a frame the PRIORITY flag itself is preserved as well *)
+Theorem C08_headers_priority_flag_partial : forall ls,
+  no_zero_prio ls = true -> P_faithful true ls (obs_of ls).
+Proof. exact prio_flag_partial. Qed.
+Print Assumptions C08_headers_priority_flag_partial.
 
 (* known findings C08-K2, C08-K3: RFC-valid scripts on which the relay stops ... *)
 Theorem C08_relay_accepts_valid_refuted :
